@@ -86,7 +86,7 @@ func controlAddrs() []uint16 {
 }
 
 func run(c *rig.Ctx) {
-	c.Require("single_write_cases", "dma_cases", "history_ops", "program_cycles", "image_cases", "constructions_failed", "constructions_ok", "programs_ended_at_undefined_opcode", "programs_with_outputs_attached")
+	c.Require("single_write_cases", "dma_cases", "history_ops", "program_cycles", "image_cases", "constructions_failed", "constructions_ok", "programs_ended_at_undefined_opcode", "programs_with_outputs_attached", "retriggers")
 
 	// (v) deliberate stop: only run when asked for explicitly (each in its own child process)
 	if c.OnlyPart == "undef" {
@@ -272,6 +272,60 @@ func run(c *rig.Ctx) {
 		if i < 3 {
 			c.Sample(map[string]any{"class": "program", "program": p.Describe(), "cycles": ran})
 		}
+	})
+
+	// (iii-b) re-triggering at every phase: each channel at very short periods is triggered
+	// again after every delay of 0..4 periods (+ wave RAM accesses while channel 3 plays), with
+	// sample outputs attached
+	freqs := []int{2047, 2046, 2045, 2044, 2040, 2032, 2016, 1984, 1920, 1792}
+	c.Part("retrigger", 4*int64(len(freqs)), func(i int64, r *rig.Rng) {
+		ch := int(i % 4)
+		f := freqs[i/4]
+		m := rig.MustNew(image(0x00, 0, 0, nil), rig.Opts{AudioOut: true})
+		nrx4 := []uint16{0xff14, 0xff19, 0xff1e, 0xff23}[ch]
+		tick := func(n int) {
+			for k := 0; k < n; k++ {
+				m.Audio.EndMachineCycle()
+				m.Drain()
+			}
+		}
+		m.Mem.Write(0xff26, 0x80)
+		m.Mem.Write(0xff25, 0xff)
+		m.Mem.Write(0xff24, 0x77)
+		switch ch {
+		case 0:
+			m.Mem.Write(0xff10, r.U8())
+			m.Mem.Write(0xff12, 0xf3)
+			m.Mem.Write(0xff13, uint8(f))
+		case 1:
+			m.Mem.Write(0xff17, 0xf3)
+			m.Mem.Write(0xff18, uint8(f))
+		case 2:
+			m.Mem.Write(0xff1a, 0x80)
+			m.Mem.Write(0xff1c, 0x20)
+			m.Mem.Write(0xff1d, uint8(f))
+		case 3:
+			m.Mem.Write(0xff21, 0xf3)
+			m.Mem.Write(0xff22, uint8((2047-f)&0xf7)) // short noise periods, both widths
+		}
+		hi := 0x80 | uint8(f>>8)&7
+		period := 16 * (2048 - f)
+		if period > 600 {
+			period = 600
+		}
+		tick(r.Intn(100))
+		for d := 0; d <= 4*period+8; d++ {
+			m.Mem.Write(nrx4, hi)
+			tick(d)
+			m.Mem.Write(nrx4, hi|uint8(r.Intn(2))<<6)
+			if ch == 2 {
+				_ = m.Mem.Read(0xff30 + uint16(r.Intn(16)))
+				m.Mem.Write(0xff30+uint16(r.Intn(16)), r.U8())
+			}
+			tick(1 + r.Intn(3))
+			c.Count("retriggers", 1)
+		}
+		c.Exact(1)
 	})
 
 	// (iv) arbitrary images: odd lengths, and every (type, size) header pair on small images
